@@ -264,12 +264,12 @@ def _maps_on_layout(repo, it, S, layout, strand_name, pre=False):
                 exp = want_seq if rstr == "PLUS" else list(reversed(want_seq)) if rstr == "MINUS" else sorted(want_seq)
                 if rstr == "UNSTRANDED":
                     got_seq = sorted(got_seq)
-                if overlapping:
-                    ok = sorted(got_seq) == sorted(exp)
-                else:
-                    ok = got_seq == exp
-                if not ok:
+                if sorted(got_seq) != sorted(exp) or (not overlapping and got_seq != exp):
                     out.append(("relative_interval", f"{desc}.relative_interval_to_parent_location({rs},{re_},{rstr}) -> {blocks_of(v)}:{got_strand} = bases {got_seq}; the point-wise map yields {exp}", f_riv.qual))
+                elif got_seq != exp and rstr != "UNSTRANDED":
+                    # the right bases in another order: only possible when blocks overlap (a location stores its blocks sorted by start)
+                    out.append(("relative_interval order [overlapping blocks]", f"{desc}.relative_interval_to_parent_location({rs},{re_},{rstr}) -> "
+                                f"{blocks_of(v)}:{got_strand} enumerates {got_seq}; the point-wise map yields the same bases in the order {exp}", f_riv.qual))
     # a location derived from one whose lazily built parts exist already (blocks, sequence) maps like a fresh one
     if pre and L > 0:
         other = "MINUS" if strand_name == "PLUS" else "PLUS"
